@@ -393,7 +393,7 @@ func viewGenBadger(r *Rand, tier string) []string {
 		h.recs = append(h.recs, rc)
 		lines = append(lines, wline(rc, true))
 	}
-	lines = append(lines, fmt.Sprintf("cwrite %d %d %d 1", h.epoch, r.U64()%1000, r.Intn(2)*r.Intn(3)))
+	lines = append(lines, fmt.Sprintf("cwrite %d %d %d 1", h.epoch, r.U64()%1000, r.Intn(2)*r.Range(1, 3)))
 	cts := []uint64{h.epoch}
 	var asked []string
 	phases := r.Range(2, 3)
@@ -438,7 +438,8 @@ func viewGenBadger(r *Rand, tier string) []string {
 		lines = append(lines, fresh...)
 		asked = append(asked, fresh...)
 	}
-	if r.Chance(1, 3) {
+	if r.Chance(2, 3) {
+		lines = append(lines, fmt.Sprintf("cread %d early", h.epoch))
 		// an EARLIER custodian record: the former first entry is no longer parsed in genesis mode
 		// (cache key = hash + genesis flag); fresh query lines, nothing is repeated after this
 		lines = append(lines, fmt.Sprintf("cwrite %d %d 0 %d", h.epoch-uint64(r.Range(1, 50)), 5000+r.U64()%1000, r.Intn(2)))
@@ -451,7 +452,7 @@ func viewGenBadger(r *Rand, tier string) []string {
 }
 
 func viewGen(r *Rand, i int, tier string) []string {
-	if i%8 == 7 {
+	if i%4 == 3 {
 		return viewGenBadger(r, tier)
 	}
 	return viewGenSynthetic(r, tier)
@@ -460,7 +461,7 @@ func viewGen(r *Rand, i int, tier string) []string {
 func init() {
 	Register(&Subsystem{
 		Name: "views",
-		Rule: "case = membership history loaded in 2–4 phases (each phase adds records at or after the last loaded timestamp, in a different store order; 1 case in 8 writes them through the real Badger node-state and custodian writers and re-opens the store), every query of earlier phases repeated after each load; non-trivial = a query with a non-empty answer",
+		Rule: "case = membership history loaded in 2–4 phases (each phase adds records at or after the last loaded timestamp, in a different store order; 1 case in 4 writes them through the real Badger node-state and custodian writers and re-opens the store), every query of earlier phases repeated after each load; non-trivial = a query with a non-empty answer",
 		Gen:  viewGen,
 		Exec: viewExec,
 	})
